@@ -251,8 +251,8 @@ class Own:
             if CORE_API_RE.match(name):
                 return BORROW
             return 'escape'
-        if fn.unit is self.prog.hdr and not fn.macro:
-            return BORROW       # public header API: TABLE or borrow
+        if fn.unit is self.prog.hdr and not fn.macro and (fn.file or '').startswith('include/upipe/'):
+            return BORROW       # core header API: TABLE or borrow (cross-checked in the evidence)
         if idx >= len(fn.params) or fn.params[idx]['t'] not in TRACKED_TYPES:
             return BORROW
         return self.summary(fn.unit, fn, idx)
@@ -320,13 +320,28 @@ class _Explorer:
 
     def _liveness(self):
         fn = self.fn
-        keys, names = {}, {}
+        keys, names, cids = {}, {}, {}
         for bid in fn.blocks:
             c = fn.cond(bid)
             if c:
                 k, _ = cond_key(c[0])
                 if k:
                     keys[bid] = k
+                # calls whose recorded outcome the condition refers to (the
+                # operands of && / || are evaluated in earlier blocks)
+                ids, st, seen = set(), [c[0]], set()
+                while st:
+                    x = st.pop()
+                    if not isinstance(x, dict):
+                        continue
+                    x = fn.resolve(x)
+                    if id(x) in seen:
+                        continue
+                    seen.add(id(x))
+                    if x.get('k') == 'call' and 'i' in x:
+                        ids.add(x['i'])
+                    st.extend(children(x))
+                cids[bid] = ids
             ns = set()
             for s in fn.stmts(bid):
                 for x in walk(s):
@@ -339,24 +354,29 @@ class _Explorer:
             names[bid] = ns
         live = {b: set() for b in fn.blocks}
         lnames = {b: set(names[b]) for b in fn.blocks}
+        lcalls = {b: set(cids.get(b, ())) for b in fn.blocks}
         changed = True
         while changed:
             changed = False
             for b in fn.blocks:
                 new = set()
                 nn = set(names[b])
+                nc = set(cids.get(b, ()))
                 if b in keys:
                     new.add(keys[b])
                 for s in fn.succ[b]:
                     if s is not None:
                         new |= live[s]
                         nn |= lnames[s]
-                if new != live[b] or nn != lnames[b]:
+                        nc |= lcalls[s]
+                if new != live[b] or nn != lnames[b] or nc != lcalls[b]:
                     live[b] = new
                     lnames[b] = nn
+                    lcalls[b] = nc
                     changed = True
         self.livekeys = live
         self.livenames = lnames
+        self.livecalls = lcalls
 
     def violation(self, kind, var, line, env, trail, detail=''):
         v = Violation(kind, var, line, list(trail), detail)
@@ -426,6 +446,12 @@ class _Explorer:
                             e2 = e.copy()
                         if k is not None:
                             e2.facts[k] = (branch != neg)
+                        else:
+                            # an impure condition that is a (negated) call:
+                            # remember its outcome for the enclosing && / ||
+                            cn, cneg = strip_expect(fn.resolve(ctree))
+                            if isinstance(cn, dict) and cn.get('k') == 'call' and 'i' in cn:
+                                e2.facts[('call', cn['i'])] = (branch != cneg)
                         work.append((tgt, self.prune(e2, tgt), trail + (tgt,)))
                 else:
                     for s in succs:
@@ -440,13 +466,15 @@ class _Explorer:
     def prune(self, env, tgt):
         live = self.livekeys.get(tgt, set())
         lnames = self.livenames.get(tgt, set())
+        lcalls = self.livecalls.get(tgt, set())
         drop = []
         for k in env.facts:
             if isinstance(k, str):
                 if k not in live:
                     drop.append(k)
             elif k[0] in ('call', 'callz'):
-                drop.append(k)
+                if k[1] not in lcalls:
+                    drop.append(k)
             elif k[0] in ('var', 'varz', 'src') and k[1] not in lnames:
                 drop.append(k)
         dropv = [v for v in env.vars if v not in lnames]
@@ -463,6 +491,19 @@ class _Explorer:
         """if taking this branch means a fallible call failed, record it"""
         n = self.fn.resolve(ctree)
         n, neg = strip_expect(n)
+        if isinstance(n, dict) and n.get('k') == 'bin' and n.get('op') in ('||', '&&') and 'lhs' in n:
+            # the value of a && / || computed in earlier blocks: find the
+            # operand that decided it
+            val = (taken != neg)
+            if (n['op'] == '||') != val:
+                # || false: both false; && true: both true
+                return self.tag(n['rhs'], val, self.tag(n['lhs'], val, env))
+            a = self._truth_operand(n['lhs'], env)
+            if a is None:
+                return env
+            if a == val:
+                return self.tag(n['lhs'], val, env)     # short-circuit
+            return self.tag(n['rhs'], val, env)
         if not isinstance(n, dict) or n.get('k') != 'call' or n.get('fn') != 'ubase_check':
             return env
         ok = (taken != neg)
@@ -476,6 +517,14 @@ class _Explorer:
             name = env.facts.get(('src', a['n']))
         if not name:
             name = '?'
+        if name.endswith('_size') and isinstance(a, dict) and a.get('k') == 'call' and a.get('args'):
+            # the size of a buffer this function has just produced cannot be
+            # refused (only a foreign or absent buffer can)
+            r0 = strip_all_casts(self.fn.resolve(a['args'][0]))
+            if isinstance(r0, dict) and r0.get('k') == 'ref' and r0['n'] in env.vars:
+                oid = env.vars[r0['n']]
+                if not (oid.startswith('P') and oid[1:].isdigit()) and env.objs.get(oid) == O:
+                    name += '(fresh)'
         e2 = env.copy()
         e2.err = e2.err | {name}
         if re.search(r'alloc|dup|copy', name):
@@ -546,7 +595,30 @@ class _Explorer:
             l = strip(n['lhs'])
             if isinstance(l, dict) and l.get('k') == 'ref':
                 return self._truth(l, env)
+        if k == 'bin' and n.get('op') in ('||', '&&') and 'lhs' in n:
+            # short-circuit: a deciding left operand means the right one was
+            # not evaluated on this path (whatever is recorded for it is stale)
+            a = self._truth_operand(n['lhs'], env)
+            if n['op'] == '||' and a is True:
+                return True
+            if n['op'] == '&&' and a is False:
+                return False
+            if a is None:
+                return None
+            return self._truth_operand(n['rhs'], env)
         return None
+
+    def _truth_operand(self, n, env):
+        n = self.fn.resolve(n)
+        n, neg = strip_expect(n)
+        v = self._truth(n, env)
+        if v is None:
+            k, kneg = cond_key(n)
+            if k is not None and k in env.facts:
+                v = env.facts[k] != kneg
+        if v is None:
+            return None
+        return (not v) if neg else v
 
     # ---- statements ------------------------------------------------------
     def stmt(self, st, env, trail):
@@ -933,6 +1005,10 @@ class _Explorer:
         elif rk == 'nonzero':
             env.facts[('callz', n['i'])] = False
             env.facts[('call', n['i'])] = True
+            if len(act) > 1 and a != C:
+                # the failing outcome of a fallible call, whether or not the
+                # caller looks at the result
+                env.err = env.err | {name}
         if a == C:
             env.objs[oid] = C
             env.how[oid] = name
